@@ -1052,6 +1052,28 @@ pub fn radix_e2e(ctx: &GenCtx, rng: &mut Rng, run: u64) -> Option<Plan> {
         plan.ops.push(Op::Sign { proc: 0, msg: msg(rng, hash.n()), api: *rng.pick(&[Api::Fn, Api::Obj]), cb: Cb::Accept, aux: None });
         plan.ops.push(Op::Sign { proc: 0, msg: msg(rng, hash.n()), api: Api::Fn, cb: Cb::Accept, aux: None });
     }
+    // bit walk: for every bit of every upper level's leaf index, a counter that differs from a small base
+    // counter in exactly that bit of that level — visited in ascending order, so every jump is forward and
+    // the release ledger stays valid across them: if some bit of a parent leaf index does not reach the
+    // derivation of the child tree, two different sub-trees share their one-time keys and the same bottom leaf
+    // signs two messages (affordable shapes only)
+    if params.len() >= 2 && params.len() <= 4 && hts.iter().sum::<u32>() < 60 {
+        let base = rng.below(1u64 << hts[hts.len() - 1].min(3));
+        let mut cs = vec![base];
+        let mut below = 0u32;
+        for j in (0..hts.len() - 1).rev() {
+            below += hts[j + 1];
+            for b in 0..hts[j] {
+                cs.push(base + (1u64 << (below + b)));
+            }
+        }
+        cs.sort();
+        cs.dedup();
+        for c in cs {
+            plan.ops.push(Op::Inject { key: 0, counter: c });
+            plan.ops.push(Op::Sign { proc: 0, msg: msg(rng, hash.n()), api: Api::Fn, cb: Cb::Accept, aux: None });
+        }
+    }
     // a counter that names no leaf (total < 64 only): must be refused
     let total: u32 = hts.iter().sum();
     if total < 64 {
